@@ -194,7 +194,19 @@ def run_case(case, ctx):
             + ["before:" + b for b in case.get("before", [])]}
 
 
+# a source whose data section is 17 MiB (260 x 256 traces of 8 samples at 2 bits: 4160 disk blocks)
+BIG_FILE = {"kind": "spec", "family": "4x4", "rate": 2, "blockshape": [4, 4, 1024], "shape": [260, 256, 8], "version": "0.2.8",
+            "values": {"kind": "gauss", "vseed": 51}, "il": [1, 1], "xl": [1, 1], "z0": 0, "dz_us": 4000, "arrays": [189, 193], "dups": [], "pad_last": True}
+
+
 def shard_main(ctx):
+    if ctx.shard in (14, 15):
+        case = {"file": BIG_FILE, "preload": ctx.shard == 15, "before": [], "u": [0.5, 0.5, 0.5], "src_form": "str" if ctx.shard == 14 else "fileobj"}
+        try:
+            ctx.evaluate(case, run_case)
+        except Violation as v:
+            ctx.failures.append({"kind": v.kind, "detail": v.detail, "case": case})
+            return
     if not ctx.explore("reblock", cases(), run_case, ctx.n(25, 400)):
         return
     ctx.explore("unsupported", unsupported_cases(), run_case, ctx.n(8, 80))
